@@ -22,6 +22,7 @@ package heap
 //@   requires h != nil && 0 <= i && i < len(h.Slice) && 0 <= j && j < len(h.Slice)
 //@   ensures h.Slice[i] == old(h.Slice[j]) && h.Slice[j] == old(h.Slice[i]) && sameSlice(h.Slice, old(h.Slice)) && h.Less == old(h.Less)
 //@   ensures forall k int :: 0 <= k && k < len(h.Slice) && k != i && k != j ==> h.Slice[k] == old(h.Slice[k])
+//@   ensures [C11.swap.nodup~nd] old(noDup(h, len(h.Slice))) ==> noDup(h, len(h.Slice))
 //@   modifies elems(h.Slice)
 
 // down: sift the element at i0 down within the first n positions. On entry every parent is in order
@@ -38,6 +39,9 @@ package heap
 //@   ensures [C11.down.sib]   i0 < n ==> siblingOK(h, i0, n)
 //@   ensures [C11.down.moved] moved && i0 < n ==> upOK(h, i0)
 //@   ensures [C11.down.stay]  !moved ==> (forall k int :: 0 <= k && k < len(h.Slice) ==> h.Slice[k] == old(h.Slice[k]))
+//@   ensures [C11.down.from~mv]  forall k int :: i0 <= k && k < n ==> exists l int :: i0 <= l && l < n && h.Slice[k] == old(h.Slice[l])
+//@   ensures [C11.down.low~mv]   forall k int :: 0 <= k && k < i0 ==> h.Slice[k] == old(h.Slice[k])
+//@   ensures [C11.down.nodup~nd] old(noDup(h, len(h.Slice))) ==> noDup(h, len(h.Slice))
 //@   ensures [C11.down.tail]  sameSlice(h.Slice, old(h.Slice)) && h.Less == old(h.Less) && forall k int :: n <= k && k < len(h.Slice) ==> h.Slice[k] == old(h.Slice[k])
 //@   modifies elems(h.Slice)
 //@   loop 0 invariant i0 <= i && (i < n || i == i0) && sameSlice(h.Slice, old(h.Slice)) && h.Less == old(h.Less)
@@ -47,6 +51,12 @@ package heap
 //@   loop 0 invariant forall k int :: n <= k && k < len(h.Slice) ==> h.Slice[k] == old(h.Slice[k])
 //@   loop 0 invariant i == i0 ==> (forall k int :: 0 <= k && k < len(h.Slice) ==> h.Slice[k] == old(h.Slice[k]))
 //@   loop 0 invariant i > i0 ==> upOK(h, i0)
+//@   loop 0 invariant [from~mv] forall k int :: i0 <= k && k < n ==> exists l int :: i0 <= l && l < n && h.Slice[k] == old(h.Slice[l])
+//@   loop 0 invariant [low~mv] forall k int :: 0 <= k && k < i0 ==> h.Slice[k] == old(h.Slice[k])
+//@   loop 0 invariant [nodup~nd] old(noDup(h, len(h.Slice))) ==> noDup(h, len(h.Slice))
+
+// no element occurs twice (among the first n positions)
+//@ pure func noDup(h *Heap[E], n int) bool = forall k int, l int :: 0 <= k && k < l && l < n ==> h.Slice[k] != h.Slice[l]
 
 // marker used to trigger the instantiation of the (universally quantified) bound m in up's contract
 //@ uninterp func bnd(m Int) bool
@@ -61,16 +71,20 @@ package heap
 //@   functype Heap.Less pure
 //@   requires h != nil && swo(h) && 0 <= j && j < len(h.Slice)
 //@   ensures [C11.up.order] forall m int :: bnd(m) && old(upPre(h, j, m)) ==> heapOK(h, m)
+//@   ensures [C11.up.from~mv]  forall k int :: 0 <= k && k <= j ==> exists l int :: 0 <= l && l <= j && h.Slice[k] == old(h.Slice[l])
+//@   ensures [C11.up.nodup~nd] old(noDup(h, len(h.Slice))) ==> noDup(h, len(h.Slice))
 //@   ensures [C11.up.frame] sameSlice(h.Slice, old(h.Slice)) && h.Less == old(h.Less) && forall k int :: j < k && k < len(h.Slice) ==> h.Slice[k] == old(h.Slice[k])
 //@   modifies elems(h.Slice)
 //@   loop 0 invariant 0 <= j && j <= j0 && j < len(h.Slice) && sameSlice(h.Slice, old(h.Slice)) && h.Less == old(h.Less)
 //@   loop 0 invariant forall m int :: bnd(m) && old(upPre(h, j0, m)) ==> upPre(h, j, m)
 //@   loop 0 invariant forall k int :: j0 < k && k < len(h.Slice) ==> h.Slice[k] == old(h.Slice[k])
+//@   loop 0 invariant [nodup~nd] old(noDup(h, len(h.Slice))) ==> noDup(h, len(h.Slice))
+//@   loop 0 invariant [from~mv] forall k int :: 0 <= k && k <= j0 ==> exists l int :: 0 <= l && l <= j0 && h.Slice[k] == old(h.Slice[l])
 
 //@ func (*Heap).zpop
 //@   functype Heap.Less pure
 //@   requires h != nil && len(h.Slice) > 0
-//@   ensures result == old(h.Slice[len(h.Slice)-1]) && len(h.Slice) == old(len(h.Slice)) - 1 && h.Slice.arr == old(h.Slice.arr) && h.Slice.off == old(h.Slice.off) && h.Less == old(h.Less)
+//@   ensures result == old(h.Slice[len(h.Slice)-1]) && len(h.Slice) == old(len(h.Slice)) - 1 && h.Slice.arr == old(h.Slice.arr) && h.Slice.off == old(h.Slice.off) && cap(h.Slice) == old(cap(h.Slice)) && h.Less == old(h.Less)
 //@   ensures forall k int :: 0 <= k && k < len(h.Slice) ==> h.Slice[k] == old(h.Slice[k])
 //@   modifies h.Slice, elems(h.Slice)
 
@@ -90,6 +104,7 @@ package heap
 // Push: one element more, heap order kept
 //@ func (*Heap).Push
 //@   functype Heap.Less pure
+//@   before (*Heap).up assert bnd(len(h.Slice))
 //@   requires h != nil && swo(h) && heapOK(h, len(h.Slice))
 //@   ensures [C11.push.order] heapOK(h, len(h.Slice)) && len(h.Slice) == old(len(h.Slice)) + 1 && h.Less == old(h.Less)
 //@   modifies h.Slice, elems(h.Slice)
@@ -104,13 +119,19 @@ package heap
 // Remove(i): removes and returns exactly the element at i, heap order kept
 //@ func (*Heap).Remove
 //@   functype Heap.Less pure
+//@   before (*Heap).up assert bnd(len(h.Slice) - 1)          // names the bound for which up's contract is used
 //@   requires h != nil && swo(h) && 0 <= i && i < len(h.Slice) && heapOK(h, len(h.Slice))
+//@   ensures [C11.remove.from~mv]  forall k int :: 0 <= k && k < len(h.Slice) ==> exists l int :: 0 <= l && l < old(len(h.Slice)) && l != i && h.Slice[k] == old(h.Slice[l])
+//@   ensures [C11.remove.above~mv] forall k int :: i < k && k < len(h.Slice) ==> exists l int :: i < l && l < old(len(h.Slice)) && h.Slice[k] == old(h.Slice[l])
 //@   ensures [C11.remove.order] heapOK(h, len(h.Slice)) && len(h.Slice) == old(len(h.Slice)) - 1 && result == old(h.Slice[i]) && h.Less == old(h.Less)
+//@   ensures [C11.remove.nodup~nd] old(noDup(h, len(h.Slice))) ==> noDup(h, len(h.Slice))
+//@   ensures [C11.remove.place] h.Slice.arr == old(h.Slice.arr) && h.Slice.off == old(h.Slice.off) && cap(h.Slice) == old(cap(h.Slice))
 //@   modifies h.Slice, elems(h.Slice)
 
 // Fix(i): restores heap order after the element at i changed (every other edge must be in order)
 //@ func (*Heap).Fix
 //@   functype Heap.Less pure
+//@   before (*Heap).up assert bnd(len(h.Slice))
 //@   requires h != nil && swo(h) && (i < len(h.Slice) || i == 0)
 //@   requires i >= 0 && i < len(h.Slice) ==> (forall p int :: 0 <= p && p < len(h.Slice) && p != i && (i == 0 || p != (i-1)/2) ==> okAt(h, p, len(h.Slice))) && siblingOK(h, i, len(h.Slice)) && (i >= 1 ==> (2*i+1 < len(h.Slice) ==> !h.Less(h.Slice[2*i+1], h.Slice[(i-1)/2])) && (2*i+2 < len(h.Slice) ==> !h.Less(h.Slice[2*i+2], h.Slice[(i-1)/2])))
 //@   requires i < 0 ==> heapOK(h, len(h.Slice))
